@@ -13,13 +13,16 @@
 \*   Module.start        MStart (status, cancel of the previous context, new context, stop flag reset: one
 \*                       critical section under the module lock), SfBegin/SfEnd (start routine), MOnline
 \*   Module.stop         MStop (status, new start-complete channel), MFlag, MCancel, MOffline (counter = 0)
+\*   buildEnabledTree    TreeReset / RelTree (module management: the "enabled as dependency" flags read by
+\*                       OnlineSoon are recomputed by Start and ManageModules; the script releases the second half)
 \*
 \* Every observable step feeds the property monitor EventsAbs (variable ab); TLC checks over all
 \* interleavings that the monitor never rejects (invariant NoReject) - i.e. that the statement at the top
 \* of EventsAbs.tla holds for this design, and that the monitor raises no false alarm against it.
-\* Buggy = TRUE is the wait as written in the pinned code (leaves the select for good when a context is
-\* cancelled, also by Module.start): TLC then produces the counterexample that is replayed as a directed
-\* script.  The same module generates the scripts (sequence of driver steps) for harness/cmd/events.
+\* Fault variants (the code as pinned): Buggy = TRUE is the hook wait that leaves the select for good when a
+\* context is cancelled - also by Module.start; TreeBuggy = TRUE is buildEnabledTree clearing every dependency
+\* flag before marking the needed ones again.  TLC rejects both; the counterexamples are replayed as directed
+\* scripts.  The same module generates the scripts (sequence of driver steps) for harness/cmd/events.
 EXTENDS EventsAbs, Json
 
 CONSTANTS Mods,      \* sequence of module names
